@@ -164,7 +164,15 @@ func VerifC07_Graph() {
 	var sb strings.Builder
 	w := &zzWriter{limit: 1 << 20}
 	_ = sb
-	err := NewFS(fsys).Fill(map[string]any{"fk": "FK"}).RenderFile(contextBackground(), w, page)
+	// the data given to Fill: a map, or nothing at all
+	fk := "FK"
+	var err error
+	if zzBool("fillnil") {
+		fk = ""
+		err = NewFS(fsys).Load(page).Fill(nil).Render(contextBackground(), w)
+	} else {
+		err = NewFS(fsys).Fill(map[string]any{"fk": "FK"}).RenderFile(contextBackground(), w, page)
+	}
 	out := string(w.got)
 	zzNote("chain", strings.Join(chain, " > "))
 	zzNote("out", out)
@@ -199,7 +207,7 @@ func VerifC07_Graph() {
 	zzNote("want", strings.Join(want, ","))
 	zzNote("got", strings.Join(got, ","))
 	zzAssert(strings.Join(got, ",") == strings.Join(want, ","), "C07.graph.nesting-order")
-	zzAssert(strings.Count(out, "PAGE:PK:FK") == 1, "C07.graph.page-rendered-once")
+	zzAssert(strings.Count(out, "PAGE:PK:"+fk) == 1, "C07.graph.page-rendered-once")
 	// page front-matter and Fill data visible in every layout of the chain
 	lastPage := 0
 	for i := range chain {
@@ -212,7 +220,7 @@ func VerifC07_Graph() {
 		if ownKeys[chain[i]] {
 			zzAssert(strings.Contains(out, m+":OWN-"+m+":OWNF-"+m), "C07.graph.layout-front-matter-wins-inside-the-layout")
 		} else {
-			zzAssert(strings.Contains(out, m+":PK:FK"), "C07.graph.page-data-visible-in-layout")
+			zzAssert(strings.Contains(out, m+":PK:"+fk+"<"), "C07.graph.page-data-visible-in-layout")
 		}
 	}
 }
